@@ -28,34 +28,42 @@ def ident(n):
     return (type(n).__name__, n.full_path)
 
 
-def run_identity(root, nest_at=(), nest_mode='ok'):
-    """Returns (log, result, leftover stacks). log: list of (node ident, {k: ident | [ident]}), nested runs logged apart."""
-    from rogw.tranp.semantics.procedure import Procedure
-    proc = Procedure()
-    log, nested_log = [], []
-    counter = [0]
-    depth = [0]
+RUN: dict = {}
 
-    other = Procedure()   # a second procedure (as Reflections / Py2Cpp each own one): nested runs may go to it
+
+def _procs(shared: bool):
+    """(procedure, second procedure). shared: the two long-lived objects of this process (as Reflections / Py2Cpp keep
+    one Procedure for every tree they ever process); otherwise fresh ones."""
+    from rogw.tranp.semantics.procedure import Procedure
+    if shared and 'procs' in _state:
+        return _state['procs']
+    proc, other = Procedure(), Procedure()
 
     def other_handler(node, **kwargs):
-        if nest_mode.endswith('raise'):
+        if RUN['nest_mode'].endswith('raise'):
             raise RuntimeError('failure inside the nested run')
         return node
     other.on('on_fallback', other_handler)
 
     def handler(node, **kwargs):
-        if depth[0] > 0:
-            if nest_mode.endswith('raise'):
+        R = RUN
+        if R['depth'] > 0:
+            if R['nest_mode'].endswith('raise'):
                 raise RuntimeError('failure inside the nested run')
             return node
-        i = counter[0]
-        counter[0] += 1
+        i = R['counter']
+        R['counter'] += 1
         ev = {}
         for k, v in kwargs.items():
             ev[k] = [ident(x) for x in v] if isinstance(v, list) else ident(v)
-        log.append((node, ev))
-        if i in nest_at:
+        R['log'].append((node, ev))
+        if R['resolve'] is not None:
+            # what Py2Cpp's handlers do all the time: resolve the type of the node they are handling
+            try:
+                R['resolve'].type_of(node)
+            except Exception:  # noqa  -- unresolvable nodes are not this property's subject
+                pass
+        if i in R['nest_at']:
             # what Py2Cpp does for annotations and aliases: process a child tree with the same procedure, inside a handler
             target = None
             for k in node.prop_keys():
@@ -67,25 +75,49 @@ def run_identity(root, nest_at=(), nest_mode='ok'):
                     target = v
                     break
             if target is not None:
-                depth[0] += 1
+                R['depth'] += 1
                 try:
-                    r = (other if nest_mode.startswith('other') else proc).exec(target)
-                    nested_log.append((ident(target), ident(r)))
+                    r = (other if R['nest_mode'].startswith('other') else proc).exec(target)
+                    R['nested_log'].append((ident(target), ident(r)))
                 except Exception:  # noqa  -- the handler deals with the failure of its nested run and carries on
-                    if not nest_mode.endswith('raise'):
+                    if not R['nest_mode'].endswith('raise'):
                         raise
-                    nested_log.append((ident(target), ident(target)))
+                    R['nested_log'].append((ident(target), ident(target)))
                 finally:
-                    depth[0] -= 1
+                    R['depth'] -= 1
         return node
 
     proc.on('on_fallback', handler)
-    result = proc.exec(root)
-    return log, result, list(proc._Procedure__stacks), nested_log
+    if shared:
+        _state['procs'] = (proc, other)
+    return proc, other
 
 
-def judge_tree(root, label, text, max_nest, nest_cap):
-    """Yields violations for one tree."""
+def run_identity(root, nest_at=(), nest_mode='ok', shared=False, resolve=None):
+    """Returns (log, result, leftover stacks, nested log). log: list of (node, {k: ident | [ident]})."""
+    proc, other = _procs(shared)
+    RUN.clear()
+    RUN.update(log=[], nested_log=[], counter=0, depth=0, nest_at=nest_at, nest_mode=nest_mode, resolve=resolve)
+    try:
+        result = proc.exec(root)
+    except BaseException:
+        _state.pop('procs', None)
+        raise
+    return RUN['log'], result, list(proc._Procedure__stacks), RUN['nested_log']
+
+
+def judge_tree(root, label, text, max_nest, nest_cap, shared=False, resolve=None, extra=None):
+    """Yields violations for one tree. shared: the process-wide procedures are used (history); a violation that a
+    fresh procedure does not show is reported as history-dependent."""
+    if shared is True:
+        viol, n, runs = judge_tree(root, label, text, max_nest, nest_cap, 'inner', resolve, extra)
+        if viol:
+            _state.pop('procs', None)
+            fresh, _, _ = judge_tree(root, label, text, max_nest, nest_cap, False, resolve, extra)
+            fresh_sigs = {tuple(v[0]) for v in fresh}
+            viol = [((['history-dependent'] + v[0][:2]) if tuple(v[0]) not in fresh_sigs else v[0], v[1], v[2]) for v in viol]
+        return viol, n, runs
+    shared = bool(shared)
     from rogw.tranp.errors import Errors
     viol = []
     seen = set()
@@ -93,9 +125,9 @@ def judge_tree(root, label, text, max_nest, nest_cap):
     def add(sig, what):
         if tuple(sig) not in seen:
             seen.add(tuple(sig))
-            viol.append((sig, f'{label}: {what}', {'src': text} if text is not None else {'module': label}))
+            viol.append((sig, f'{label}: {what}', dict({'src': text} if text is not None else {'module': label}, **(extra or {}))))
     try:
-        log, result, stacks, _ = run_identity(root)
+        log, result, stacks, _ = run_identity(root, shared=shared, resolve=resolve)
     except Errors.Error as e:
         node = e.args[0] if e.args and hasattr(e.args[0], 'full_path') else None
         add(['exec-raises', type(e).__name__, type(node).__name__ if node is not None else '?'], f'identity procedure raised {type(e).__name__}: {str(e)[:200]}')
@@ -141,7 +173,7 @@ def judge_tree(root, label, text, max_nest, nest_cap):
         for nest, mode in [(n_, m_) for n_ in combos for m_ in (modes if len(n_) == 1 else modes[:2])]:
             runs += 1
             try:
-                log2, result2, stacks2, nested = run_identity(root, nest, mode)
+                log2, result2, stacks2, nested = run_identity(root, nest, mode, shared=shared, resolve=resolve)
             except Exception as e:  # noqa
                 add(['nested-raises', type(e).__name__, f'nest={len(nest)}', mode], f'nested exec ({mode}) at {nest} raised {type(e).__name__}: {str(e)[:200]}')
                 continue
@@ -175,7 +207,74 @@ def worker(task):
         except Exception:  # noqa  -- not in the grammar
             out.append((None, 0, 0))
             continue
-        out.append(judge_tree(root, repr(t)[:80], t, max_nest, 30))
+        # one long-lived procedure per process: every tree is the same module path '__main__' with other content
+        hist = _state.setdefault('hist', [])
+        out.append(judge_tree(root, repr(t)[:80], t, max_nest, 30, shared=True, extra={'history': hist[:1] + hist[-1:]}))
+        hist.append(t)
+        if len(hist) > 2:
+            del hist[1:-1]
+    return out
+
+
+GENERIC_PROG = '''from typing import Generic, TypeVar
+
+T = TypeVar('T')
+
+class Box(Generic[T]):
+	item: T
+
+	def __init__(self, item: T) -> None:
+		self.item = item
+
+	def get(self) -> T:
+		return self.item
+
+class IntBox(Box[int]):
+	def twice(self) -> int:
+		return self.item * 2
+
+	def same(self) -> int:
+		return self.get()
+
+class Plain:
+	v: int
+
+	def __init__(self) -> None:
+		self.v = 1
+
+class Sub(Plain):
+	def read(self) -> int:
+		return self.v
+
+def use(b: IntBox, s: Sub) -> int:
+	return b.twice() + b.item + s.read()
+'''
+
+
+def resolve_sets(quick: bool):
+    from mc.gen import pyprog
+    from mc.props import c08
+    sets = [('generic-inheritance', {'gen_inh': GENERIC_PROG})] + [(f'c08-{k}', dict(v)) for k, v in c08.PROGRAMS.items()]
+    for i, p in enumerate(list(pyprog.feature_programs(True))[:2 if quick else 8]):
+        sets.append((f'feat{i}', {f'feat_mod{i}': p.source}))
+    return sets
+
+
+def resolve_worker(task):
+    """Identity procedure whose handlers resolve the type of every node they handle (as Py2Cpp's do), one long-lived
+    procedure, every module of the set; then every module a second time (the first pass filled every memo)."""
+    from mc.tranp.session import Session
+    name, sources, disk = task
+    s = Session(dict(sources))
+    out = []
+    try:
+        mods = [s.load(m) for m in list(sources) + list(disk)]
+    except Exception:  # noqa
+        return [(None, 0, 0)]
+    _state.pop('procs', None)
+    for rnd in (1, 2):
+        for m in mods:
+            out.append(judge_tree(m.entrypoint, f'{name}/{m.path} (pass {rnd}, resolving handlers)', None, 1, 8, shared=True, resolve=s.reflections, extra={'resolve_set': name}))
     return out
 
 
@@ -213,13 +312,28 @@ def run(ctx):
         nodes += n
         runs += k
         ctx.merge(viol)
+    from mc.props.c01 import warm_parent
+    warm_parent()
+    rsets = [(n, srcs, []) for n, srcs in resolve_sets(ctx.quick)]
+    rsets += [(f'real:{m}', {}, [m]) for m, _, _ in reals if m.endswith(('fixture_db', 'fixture_reflections', 'example'))]
+    res3 = pool.pmap(resolve_worker, rsets, workers=ctx.workers, rotate=ctx.seed)
+    resolving = 0
+    for r in res3:
+        for viol, n, k in r:
+            if viol is None:
+                continue
+            resolving += 1
+            nodes += n
+            runs += k
+            ctx.merge(viol)
     return {
         'evaluations': runs,
         'distinct_nontrivial': trees + real_ok,
-        'rule': f'identity procedure over every tree of the sentence corpus and every real module; every handler invocation judged against the node\'s own properties; nested exec started at every handler position (<= {max_nest} nested starts per run; positions capped at 30 evenly spaced for larger trees, 12 for real modules); non-trivial = tree accepted by the grammar',
+        'rule': f'identity procedure over every tree of the sentence corpus and every real module; every handler invocation judged against the node\'s own properties; nested exec started at every handler position (<= {max_nest} nested starts per run; positions capped at 30 evenly spaced for larger trees, 12 for real modules); non-trivial = tree accepted by the grammar; the sentence layer uses one long-lived procedure per worker process for all trees (all are module __main__ with other content; a violation a fresh procedure does not show is reported as history-dependent); resolving layer: handlers call Reflections.type_of on the node they handle, over {[n for n, _, _ in rsets]}, each module twice',
         'samples': sents[:2] + sents[len(sents) // 2: len(sents) // 2 + 2] + [m for m, _, _ in reals[:2]],
         'handler_invocations_judged': nodes,
         'real_modules': real_ok,
+        'resolving_runs': resolving,
         'rejected_by_grammar': rejected,
         'exhaustive': True,
         'bound': f'corpus as stated; nesting deviations <= {max_nest}',
@@ -228,8 +342,14 @@ def run(ctx):
 
 def replay(ctx, data):
     _init_worker()
-    if 'src' in data:
-        r = worker(([data['src']], 2))
+    if 'resolve_set' in data:
+        from mc.gen import corpus as _c
+        name = data['resolve_set']
+        tasks = [(n, srcs, []) for n, srcs in resolve_sets(False) if n == name] or [(name, {}, [name.split(':', 1)[1]])]
+        for viol, _, _ in resolve_worker(tasks[0]):
+            ctx.merge(viol or [])
+    elif 'src' in data:
+        r = worker((list(data.get('history') or []) + [data['src']], 2))
         for viol, _, _ in r:
             ctx.merge(viol or [])
     else:
